@@ -28,6 +28,51 @@ type UpstreamT struct {
 
 var Upstream = &UpstreamT{}
 
+// Upstreams are additional backends (multi-upstream harnesses); Upstreams[0] == Upstream.
+var Upstreams [3]*UpstreamT
+
+// StartUpstreamN starts backend i and returns its host[:port].
+func StartUpstreamN(i int) string {
+	if i == 0 {
+		h := StartUpstream()
+		Upstreams[0] = Upstream
+		return h
+	}
+	if Upstreams[i] != nil && Upstreams[i].srv != nil {
+		Upstreams[i].srv.Close()
+	}
+	u := &UpstreamT{RespStatus: 200, RespHeader: http.Header{}}
+	Upstreams[i] = u
+	u.srv = httptest.NewServer(u.handler())
+	pu, _ := url.Parse(u.srv.URL)
+	return pu.Host
+}
+
+func VerifModel_zzverif_StartUpstreamN(i int) string {
+	u := &UpstreamT{RespStatus: 200, RespHeader: http.Header{}}
+	Upstreams[i] = u
+	if i == 0 {
+		Upstream = u
+		return "upstream.test"
+	}
+	return "upstream" + itoa(i) + ".test"
+}
+
+func (u *UpstreamT) handler() http.Handler {
+	return http.HandlerFunc(func(w http.ResponseWriter, r *http.Request) {
+		u.Calls++
+		u.Method, u.Host, u.Path, u.RawQuery, u.Header = r.Method, r.Host, r.URL.Path, r.URL.RawQuery, r.Header
+		b, _ := io.ReadAll(r.Body)
+		u.Body, u.HasBody = string(b), len(b) > 0
+		for k, vv := range u.RespHeader {
+			for _, v := range vv {
+				w.Header().Add(k, v)
+			}
+		}
+		w.WriteHeader(u.RespStatus)
+	})
+}
+
 // StartUpstream resets the backend and returns its host[:port].
 func StartUpstream() string {
 	if Upstream.srv != nil {
@@ -69,6 +114,11 @@ func VerifModel_zzverif_StopUpstream() {}
 // (*http.Transport).RoundTrip under the executor: deliver to the backend model.
 func VerifModel_http_Transport_RoundTrip(t *http.Transport, req *http.Request) (*http.Response, error) {
 	u := Upstream
+	for i := 1; i < len(Upstreams); i++ {
+		if Upstreams[i] != nil && req.URL.Host == "upstream"+itoa(i)+".test" {
+			u = Upstreams[i]
+		}
+	}
 	u.Calls++
 	u.Method, u.Host, u.Path, u.RawQuery, u.Header = req.Method, req.Host, req.URL.Path, req.URL.RawQuery, req.Header
 	if req.Body != nil {
